@@ -1118,6 +1118,8 @@ def impl_hsm_reent_async(case):
     suspends (cb % 3) times, then logs itself and AWAITS model.trigger(event) for each of its actions (payload
     2000 + 8 * position + k as in the re-entrant engines).  With at most one callback per list the order of the
     items is the synchronous one, so the observation is compared exactly with the re-entrant hierarchical model"""
+    if hasattr(flat, 'STALE_SCOPE_AS_VALUEERROR'):
+        flat.STALE_SCOPE_AS_VALUEERROR[0] = True      # as hsm.impl_hsm_reent: a stale-scope crash is read as ValueError
     world = flat.World(case['env'], case['machine']['send'])
     world.state_of = hsm.state_forest
     base = world.recorder
@@ -1195,7 +1197,7 @@ def hsm_reent_async_stream(seed, n):
     bad, nested = [], 0
     for c, m, i in zip(cases, mo, io):
         hc = dict(c, history=[(0, e, a) for e, a in c['history']])
-        mm, ii = hsm.mask_handled(hc, m), hsm.mask_handled(hc, hsm._stale_scope_exn(i))
+        mm, ii = hsm.mask_handled(hc, m), hsm.mask_handled(hc, getattr(hsm, '_stale_scope_exn', lambda o: o)(i))
         if isinstance(mm, list) and mm[0] == 1:
             nested += sum(1 for st in mm[2] for it in st[0] if it[4][1] >= 2000)
             if any(st[1] == [1, [4, 99]] for st in mm[2]):
